@@ -22,6 +22,10 @@
   `ref` node carries is only used when its name is not in the table (never the case for
   trees produced by `check`) and is refreshed at the end of `Parse` (`Parser.resolve`).
 
+  Repairs 0009 / 0010 (C14): `=` / `!=` accept texts, numbers and Booleans only (lists and JSON
+  values were accepted and failed on the first row); the left operand of `in` must be a text or
+  a number (Booleans, bare names, lists and JSON values were accepted and failed on the first row).
+
   What `Check` visits: since the repairs 0003–0005 `NotExpr.Check`, `ListExpr.Check` and
   `FieldAccessExpr.Check` check their operands (before them they did not); only the operands
   of binary operators and the arguments of calls are *rewritten* when they are alias names;
@@ -347,6 +351,8 @@ def CheckCtx.checkWithCompares (ctx : CheckCtx) (pos : Nat) (op : Op) (l r : Exp
     if ltype != rtype then synErr pos
     else
       match op with
+      | .eq | .neq =>                            -- repair 0009: texts, numbers and Booleans only
+        if ltype != tyTNUMBER && ltype != tyTSTR && ltype != tyTBOOL then synErr l.pos else pure ()
       | .gt | .gte | .lt | .lte =>
         if ltype != tyTNUMBER && ltype != tyTSTR then synErr l.pos else pure ()
       | .prefixMatch | .regexMatch =>
@@ -363,12 +369,14 @@ def CheckCtx.inItems (ctx : CheckCtx) (ltype : Nat) : List Expr → Res Unit
 /-- `checkWithIn` -/
 def CheckCtx.checkWithIn (ctx : CheckCtx) (l r : Expr) : Res Unit := do
   let ltype ← ctx.rt l
-  match r with
-  | .list _ items => ctx.inItems ltype items
-  | .call .. | .ref .. => do
-    let t ← ctx.rt r
-    if t != tyTLIST then synErr r.pos else pure ()
-  | _ => synErr r.pos
+  if ltype != tyTSTR && ltype != tyTNUMBER then synErr l.pos   -- repair 0010: texts and numbers only
+  else
+    match r with
+    | .list _ items => ctx.inItems ltype items
+    | .call .. | .ref .. => do
+      let t ← ctx.rt r
+      if t != tyTLIST then synErr r.pos else pure ()
+    | _ => synErr r.pos
 
 /-- `checkWithBetween` -/
 def CheckCtx.checkWithBetween (ctx : CheckCtx) (l r : Expr) : Res Unit := do
